@@ -282,6 +282,24 @@ impl<'a> Runner<'a> {
                         "BufferLimit returned although the policy did not refuse".into(),
                     );
                 }
+                // "records that fit within the permitted sizes are parsed normally": a single-record read
+                // cannot need more room than the largest item of the input, whatever happened before
+                if self.limit_keeps_strict && !self.r().has_err() {
+                    let r = self.r();
+                    let mut need = r.recs.iter().map(|x| x.extent() + 1).max().unwrap_or(1);
+                    if self.case.fmt == Fmt::Fastq {
+                        let tail_start = r.recs.last().map_or(0, |x| x.end);
+                        need = need.max(self.case.input.len() - tail_start + 1);
+                    }
+                    let cap = self.rig.rr().capacity();
+                    if need <= cap {
+                        self.dev(
+                            "policy",
+                            "buffer-limit-although-every-record-fits",
+                            format!("a single-record read returned BufferLimit; the buffer has {} bytes and no record of the input needs more than {}", cap, need),
+                        );
+                    }
+                }
                 if self.limit_keeps_strict && !self.degraded && matches!(self.cursor, Cursor::At(_)) {
                     // the record is still pending: with a policy that permits the size the
                     // stream must continue exactly here
@@ -908,6 +926,15 @@ impl<'a> Runner<'a> {
                 let io = matches!(e.obs, ErrObs::Io { .. });
                 if !io {
                     self.dev("seek", "seek-error", format!("seek to a record position failed with {:?}", e.obs));
+                }
+                if let ErrObs::Io { msg, .. } = &e.obs {
+                    if msg.contains(crate::src::ABSOLUTE_ONLY_MSG) {
+                        self.dev(
+                            "seek",
+                            "seek-needs-relative-source-seeks",
+                            "seek to a record position failed because the reader asked a source that only supports absolute seeks for a relative one".into(),
+                        );
+                    }
                 }
                 self.on_error(&e, injected, 0);
                 self.post_op(injected, 0, io, false);
